@@ -246,6 +246,26 @@ def correspondence(ctx, rows, tag):
 
 
 # =========================================================================== search
+# every branch listed here must be visited by at least one JUDGED point of the thorough search (the check fails
+# otherwise); the quick tier only reports the ones it did not reach
+REQUIRED_BRANCHES = (
+    [f"CylinderSegment:case{k}" for k in S.CS_CASES]                      # the 26 special cases of the segment core
+    + [f"Cuboid:octant:{a}{b}{c}:{s}" for a in "+-" for b in "+-" for c in "+-" for s in ("inside", "outside")]
+    + [f"Cylinder:{r}:{s}" for r in ("small_r", "general_r") for s in ("inside", "outside")]
+    + [f"{c}:pol:{p}" for c in ("Cylinder", "CylinderSegment") for p in ("ax", "tv", "tvax")]
+    + ["CylinderSegment:full360:solid", "CylinderSegment:full360:ring",
+       "CylinderSegment:phi1<-180:inside", "CylinderSegment:phi1<-180:outside",
+       "Circle:on-axis", "Circle:general",
+       "Polyline:zero-length", "Polyline:on-line", "Polyline:mask2", "Polyline:mask3", "Polyline:mask4",
+       "Sphere:inside", "Sphere:outside", "Dipole:outside", "Triangle:outside", "Triangle:in-face-plane"]
+    + [f"{c}:{s}" for c in ("Cuboid", "Cylinder", "CylinderSegment", "Tetrahedron", "TriangularMesh")
+       for s in ("inside", "outside", )]
+    + ["Tetrahedron:in-face-plane", "TriangularMesh:in-face-plane"]
+)
+REQUIRED_CORR = (["corr:dipole:general-or-origin", "corr:sphere:inside", "corr:sphere:outside",
+                  "corr:circle:zero(r0=0|on-wire|origin)", "corr:circle:on-axis", "corr:circle:general(not modelled)"]
+                 + ["corr:polyline:" + b for b in ("zero-length", "on-line", "foot-beyond(mask2)", "foot-beyond(mask3)",
+                                                   "foot-between(mask4)")])
 class _Watchdog(Exception):
     pass
 
@@ -309,6 +329,19 @@ def search(ctx, n_per_class, procs=4):
                 case = small
             ctx.impl_fail(sig, what, {"kind": "field-case", "case": case})
     ctx.extra["search_worst_rel_deviation_by_region"] = {k: float(f"{v:.3g}") for k, v in sorted(worst.items())}
+    # ---- which formula branches the judged evaluations went through (measured, see c01_search.branches)
+    seen = {}
+    for case, r in zip(cases, res):
+        for b in r.get("branches", []):
+            seen[b] = seen.get(b, 0) + 1
+    for b, k in seen.items():
+        ctx.bump("branch:" + b, k)
+    missing = [b for b in REQUIRED_BRANCHES if b not in seen]
+    ctx.extra["search_branches_visited"] = dict(sorted(seen.items()))
+    ctx.extra["search_branches_required_not_visited"] = missing
+    if missing and ctx.tier == "thorough":
+        ctx.add_broken("broken-correspondence", "search coverage",
+                       "formula branches never visited by a judged search point at thorough tier: " + ", ".join(missing))
     ctx.count("search_points", len(cases) - nskip)
     ctx.count("search_skipped", nskip)
 
@@ -328,13 +361,17 @@ def run(ctx):
         "instantiated with Coq's primitive binary64 floats (Model/CoreExec.v, vm_compute) against the numpy functions, "
         "rtol 1e-9 of the row's largest component; the correspondence validates the model, it proves nothing",
         "theorems are about the model over Coq's real numbers (NumR); nothing relates NumR to binary64",
+        "C01_cuboid_polz_above_is_coulomb_partial is about Gen/GenCuboid.v (translate/gen_cuboid.py, regenerated from /repo on "
+        "this run: the six corner-sum terms and the contribution table of magnet_cuboid_Bfield) assembled by "
+        "Model/CuboidCore.v (hand-written octant folding and sign matrices, owned and tied to the implementation by the "
+        "C05/C13 checks, not by this one) with numpy.arctan2 modelled as CoreNum.Ratan2",
         "the search's reference fields (harness/c01_quad.py: adaptive Gauss-Legendre quadrature of Biot-Savart and of "
         "the Coulombian surface-charge integral, own geometry / inside tests / frame change) are trusted",
         "not modelled, covered by the quadrature search only: magnet_cuboid_Bfield, both cylinder cores, "
         "magnet_cylinder_segment_Hfield, triangle_Bfield, tetrahedron/triangularmesh wrappers, current_circle_Hfield "
         "(Bulirsch cel) off the axis, special_el3",
     ]
-    ok = ctx.regen(["GenCore"])
+    ok = ctx.regen(["GenCore", "GenCuboid"])
     built = ctx.build_props() and ok
     src = open(os.path.join(os.path.dirname(os.path.dirname(os.path.dirname(os.path.abspath(__file__)))),
                             "coq", "Props", "C01.v")).read()
@@ -346,6 +383,9 @@ def run(ctx):
     def corr():
         rows = gen_rows(ctx.rng, ctx.n(500, 12000))
         bad = correspondence(ctx, rows, ctx.tier)
+        miss = [k for k in REQUIRED_CORR if not ctx.dist.get(k)]
+        if miss and bad is not None:
+            ctx.add_broken("broken-correspondence", "correspondence coverage", "model branches without a row: " + ", ".join(miss))
         if bad:
             ctx.add_broken("broken-correspondence", "CoreModel vs implementation: " +
                            f"{bad[0]['model']}:{bad[0]['branch']}:{bad[0]['field']}", json.dumps(bad[:5]))
